@@ -25,7 +25,7 @@ type UnaryCase struct {
 
 // RunUnary checks transparency of the unary interceptor.
 func RunUnary(c *UnaryCase) string {
-	ctx := context.WithValue(context.Background(), userKey{}, "user-value")
+	ctx := grpcgcp.NewMEContext(context.WithValue(context.Background(), userKey{}, "user-value"), "user-me")
 	var cancel context.CancelFunc = func() {}
 	if c.HasDl {
 		ctx, cancel = context.WithTimeout(ctx, time.Hour)
@@ -98,6 +98,9 @@ func RunUnary(c *UnaryCase) string {
 		}
 		if ictx.Value(userKey{}) != "user-value" {
 			fail = "caller's context value lost"
+		}
+		if me, ok := grpcgcp.FromMEContext(ictx); !ok || me != "user-me" {
+			fail = fmt.Sprintf("the MultiEndpoint name the caller had put into the context is lost (FromMEContext = %q, %v)", me, ok)
 		}
 		if c.Nested != 0 && fail == "" {
 			gr, _, _ := grpcgcp.VerifCtxMsgs(ictx)
